@@ -3,6 +3,7 @@ from engine import *
 import obligations
 import re
 import provenance
+import guards
 import mutations
 
 CH = 'lightning::ln::channel::'
@@ -665,3 +666,4 @@ RULES.append(('09.u', 'obligation-carrying values returned by workspace calls (t
 RULES.append(('09.t', 'identity comparisons: every reviewed (function, identity type) == / != comparison (HTLCSource, Txid, OutPoint, ChannelId, PaymentHash, PublicKey, ...) is still made - a function does not silently change what it matches by (rules/provenance.py)', lambda F: provenance.ids_for_property(F, 'C09', '09.t')))
 RULES.append(('09.R', 'state resets: every reviewed constant write to persistent state (flag = true / false, counter = 0, pending slot = None) of a function is still made (rules/provenance.py)', lambda F: provenance.flags_for_property(F, 'C09', '09.R')))
 RULES.append(('09.M', 'collection mutations: every reviewed (function, stored collection, mutator class: add / remove / filter / empty / swap / order) triple is still present - an entry that is no longer removed, inserted or drained on one path (rules/mutations.py)', lambda F: mutations.for_property(F, 'C09', '09.M')))
+RULES.append(('09.G', 'guard census: no reviewed call of a workspace function and no reviewed mutation of a stored collection gained a controlling branch condition (an added `&& cond`, early return / continue, more specific match arm in front of an act); counts per call site, name free (rules/guards.py)', lambda F: guards.for_property(F, 'C09', '09.G')))
